@@ -600,7 +600,12 @@ func (s *storage) getExchangeTargets(oldTable *table, relations []relationID, ma
 	for i := range oldTable.columns {
 		targets = append(targets, oldTable.columns[i].target)
 	}
+	var seen bitMask
 	for _, rel := range relations {
+		if seen.Get(rel.component.id) {
+			panic(fmt.Sprintf("relation component %d specified more than once", rel.component.id))
+		}
+		seen.Set(rel.component.id)
 		// Validity of the target is checked when creating a new table.
 		// Whether the component is a relation is checked when creating a new table.
 		column := oldTable.components[rel.component.id]
